@@ -1,7 +1,7 @@
 #!/usr/bin/env python3
 """Regenerate MANIFEST.json (python3 tools/gen_manifest.py).
 
-A property is claimed iff lenaverif/props/meta/<ID>.json exists (keys: technique, level_text,
+A property is claimed iff it is listed in tools/claimed.txt and lenaverif/props/meta/<ID>.json exists (keys: technique, level_text,
 level_note, design_ref, category) together with lenaverif/props/<id>.py.  Everything else is listed
 under not_applicable with the reason from tools/not_applicable.json (or "not built yet").
 """
@@ -20,7 +20,10 @@ def main():
         na_reasons = json.load(open(p))
     hooks_p = os.path.join(HERE, "tools", "hooks.json")
     hook_commits = json.load(open(hooks_p)) if os.path.exists(hooks_p) else []
+    accepted = open(os.path.join(HERE, "tools", "claimed.txt")).read().split()
     for pid in IDS:
+        if pid not in accepted:      # built but not yet reviewed/accepted by the orchestrating session
+            continue
         mp = os.path.join(META, pid + ".json")
         if not (os.path.exists(mp) and os.path.exists(os.path.join(HERE, "lenaverif", "props", pid.lower() + ".py"))):
             continue
